@@ -105,8 +105,12 @@ class LogfileHandler(mlzlog.LogfileHandler):
         super().doRollover()
         if self.max_days:
             # keep only the last max_days files
+            prefix = self.rootname + '-'
             with os.scandir(dirname(self.baseFilename)) as it:
-                files = sorted(entry.path for entry in it if entry.name != 'current')
+                # only the dated log files of this handler, not 'current', sub directories or foreign files
+                files = sorted(entry.path for entry in it
+                               if entry.name.startswith(prefix) and entry.name.endswith('.log')
+                               and entry.is_file(follow_symlinks=False))
             for filepath in files[:-self.max_days]:
                 os.remove(filepath)
 
